@@ -88,8 +88,14 @@ fn main() {
             let prof = gen::profile(&args[2]);
             let seed: u64 = args[3].parse().unwrap();
             let count: usize = args[4].parse().unwrap();
-            let n = lockstep::run(prof, seed, count, &args[5]);
+            let (n, failures) = lockstep::run(prof, seed, count, &args[5]);
             eprintln!("lockstep: wrote {} histories", n);
+            let mut rep = extra::Report::new();
+            rep.evaluations = n as u64;
+            for f in failures {
+                rep.fail(f);
+            }
+            rep.print();
         }
         "vec" => {
             let seed: u64 = args[2].parse().unwrap();
